@@ -88,6 +88,13 @@ def _alarm(signum, frame):
 
 
 # --------------------------------------------------------------------------- collector
+def _tb():
+    """Traceback text without Hypothesis's (long) falsifying-example dump."""
+    t = traceback.format_exc()
+    t = "\n".join(l[:300] for l in t.split("Falsifying example")[0].splitlines() if "\\x00\\x00\\x00" not in l)
+    return t if len(t) <= 4000 else t[:1200] + "\n...\n" + t[-2800:]
+
+
 class Collector:
     def __init__(self):
         self.evals = 0
@@ -178,7 +185,7 @@ def run_body(test, case, col, origin, timeout=20, tape=None):
     except Exception as e:
         sig = exc_sig("unexpected-exception", e)
         if sig.endswith("outside-valida"):
-            col.harness_errors.append(traceback.format_exc()[-3000:])
+            col.harness_errors.append(_tb())
             return None
         out = Outcome()
         out.violations.append(V("unexpected-exception", sig, exc_detail(e)))
@@ -231,7 +238,7 @@ def _worker(args):
         try:
             test.machine(s, n, record)
         except Exception:
-            col.harness_errors.append(traceback.format_exc()[-3000:])
+            col.harness_errors.append(_tb())
         return col
     for fi, factor in enumerate(factors):
         if test.factors is not None:
@@ -254,7 +261,7 @@ def _worker(args):
         try:
             t()
         except Exception:
-            col.harness_errors.append(traceback.format_exc()[-3000:])
+            col.harness_errors.append(_tb())
     return col
 
 
